@@ -47,7 +47,7 @@ def cases(max_v=8, max_e=14, classes=6, settings=True, big=False, scale_rate=Non
                   graphs.graph_descs(max_v, max_e, min(classes, 4), min_v=4, min_e=6),
                   # the wider vertex-class pool: a vertex class overriding the public `links` view, universes used as
                   # plain vertices, a class caching for itself, ...
-                  graphs.graph_descs(max_v, max_e, classes, min_v=2, min_e=2, wide=True)),
+                  graphs.graph_descs(max_v, max_e, 12 if classes >= 6 else classes, min_v=2, min_e=2, wide=True)),
         st.one_of(st.none(), st.lists(st.integers(0, max_v - 1), min_size=1, max_size=max_v)),
         st.integers(0, 7),
         st.integers(0, 2) if settings else st.just(0),
@@ -165,7 +165,9 @@ class Setup:
         return k
 
     def idx(self, seq):
-        return [self.vi.get(id(x), "?") for x in seq]
+        out = [self.vi.get(id(x), "?") for x in seq]
+        h.spoil(seq)        # a returned listing is the caller's to modify
+        return out
 
     def expectation(self):
         """
